@@ -17,12 +17,18 @@ the public setters, a trial run before the heritability is set; phenotype-table 
 "string" / categorical (sorted, ordered, with unused categories) and family columns as int8 / int32 / Int64 / categorical;
 the *row index* of the phenotype table (RangeIndex, shuffled integers, strings, repeated labels as left by pandas.concat of
 several tables, one label for all rows, MultiIndex, the taxon labels, floats with NaN, repeated dates, CategoricalIndex); the
-table of two stacked trials (whole population + a sub-list of it) and a genotype matrix listing a sub-list of the taxa.
+table of two stacked trials (whole population + a sub-list of it) and a genotype matrix listing a sub-list of the taxa;
+the *contents* of the labels (taxa, trait names, names of the label columns, family labels): edge / inner white space, blank and
+empty labels, 'nan' / 'None' / 'NA', numeric-looking strings, case variants, composed / decomposed unicode, prefixes, long
+labels, punctuation, drawn text, integers and integers mixed with strings -- unique as Python objects, nothing more.
 
 Oracle: genotypic values from the allele calls and model coefficients with math.fsum; variances with fractions.Fraction;
 means with math.fsum; everything joined by taxon label and (env, rep), never by row position (unless there are no labels).
+Labels are compared by Python equality of the objects themselves (dict keys / ==): never through str(), strip(), casefold() ...
 """
 import math
+import unicodedata
+from collections import Counter
 from fractions import Fraction
 
 import numpy
@@ -50,7 +56,12 @@ EPS = 2.0 ** -52
 ALPHA_TEST = 1e-13
 
 ASSUMPTIONS = [
-    "taxa labels are unique strings within a population (records are joined by label); a taxon has one group",
+    "taxa labels are unique within a population *as Python objects* (pairwise !=; records are joined by label); a label is a str of "
+    "any contents or an int; a taxon has one group",
+    "labels with an embedded NUL character are outside the domain: pandas itself (unique / factorize / groupby / Categorical, "
+    "3.0.6) takes 'a', 'a\\x00' and 'a\\x00b' for one label, so a phenotype table cannot tell such taxa apart",
+    "trait names and the names of the label columns are unique strings of any contents, different from each other and from "
+    "the table's own 'taxa', 'taxa_grp', 'env', 'rep'",
     "diploid 0/1 phased allele calls; genomic models with one fixed effect (intercept) so that 'true genotypic value' = "
     "intercept + sum dosage*u_a (+ sum heterozygote*u_d) is unambiguous",
     "genetic variance = population variance (ddof 0) of the true additive (h2) or genotypic (H2) values of the taxa supplied",
@@ -63,6 +74,161 @@ ASSUMPTIONS = [
 
 NAME_POOL = ["m07", "b10", "Z3", "a2", "zz", "k", "A1", "x10", "x9", "c", "B", "y5", "d", "W", "q1", "e"]
 TRAIT_POOL = ["yld", "ht", "aa"]
+
+# Label contents.  Every cluster is a set of labels that are different Python objects (pairwise !=) but that some normalisation
+# (strip, split, casefold, unicode normalisation, int(), float(), str(), missing-value parsing, prefix / truncated comparison,
+# C-string handling of punctuation) would confuse with each other.  No label contains NUL (see ASSUMPTIONS).
+LABEL_CLUSTERS = {
+    "edge_ws": ["A1", "A1 ", " A1", " A1 ", "A1\t", "\nA1", "A1\u00a0", "\u2003A1", "A1\r\n", "A1  "],
+    "inner_ws": ["a b", "a  b", "a\tb", "ab", "a\u00a0b", "a\nb", "a_b", "a b c"],
+    "blank": ["", " ", "  ", "\t", "\u00a0", "\n", "_"],
+    "missing_like": ["nan", "NaN", "None", "NA", "<NA>", "null", "N/A", "NaT", "none", "inf", "-inf", "#N/A", "NULL"],
+    "numeric_like": ["1", "01", "1.0", "1e0", "+1", "0", "-0", "1 ", "True", "False", "0x1", "1_0", "10", "1.", "001"],
+    "case": ["ab", "Ab", "aB", "AB", "\u00df", "ss", "SS", "\u0130", "i", "I", "\u0131"],
+    "unicode": ["\u00e9", "e\u0301", "e", "\u212b", "\u00c5", "A\u030a", "\uff21", "A", "\u2126", "\u03a9", "\U0001f33d",
+                "\u200bA", "A\u200b", "\ufb01", "fi"],
+    "prefix": ["x", "x1", "x10", "x100", "x1 ", "x.1", "x1.0", "x_1", "x1x"],
+    "long": ["L" * 300 + "a", "L" * 300 + "b", "L" * 300, "L" * 299, "L" * 3000 + "a", "L" * 3000 + "b", "a" + "L" * 300],
+    "punct": ["b'a'", "a", "'a'", '"a"', "a,b", "a;b", "a|b", "a/b", "a\\b", "(1, 2)", "[1]", "{}", "a=b", "%s", "{0}", "a.b", "a:b", "#a"],
+    "ints": [3, 1, 20, 100, -5, 0, 2 ** 40, 12],
+    "mixed": [1, "1", 7, "7", 10, "10", -3, "-3", 0, "0", "01", " 1"],
+}
+CLUSTER_NAMES = sorted(LABEL_CLUSTERS)
+PADS = ["", "", " ", "  ", "\t", "\n", "\u00a0", "\u2003", "\r\n"]
+TEXT_ALPHABET = st.characters(codec="utf-8", exclude_characters="\x00")
+
+TRAIT_CLUSTERS = [["yld", "yld ", " yld"], ["ht", "Ht", "HT"], ["1", "01", "1.0"], ["nan", "None", "NA"], ["", " ", "\t"],
+                  ["\u00e9", "e\u0301", "e"], ["y", "y1", "y10"], ["L" * 300 + "a", "L" * 300 + "b", "L" * 300],
+                  ["a b", "a  b", "a_b"], ["mean", "count", "index"], ["rep ", "Env", " env"], ["0", "1", "2"], ["a.b", "a,b", "a|b"]]
+# (taxa column, family column, names of decoy columns holding *other* labels) of a hand-built phenotype table
+COLUMN_SETS = [["taxa", "taxa_grp", []], ["taxa", "taxa_grp", []], ["taxa", "taxa_grp", ["taxa ", "Taxa", "taxa_grp ", "TAXA_GRP"]],
+               ["line name", "family", []], ["taxa ", " taxa_grp", ["taxa", "taxa_grp"]], ["TAXA", "Taxa_Grp", ["taxa", "taxa_grp"]],
+               ["7", "07", ["7.0"]], ["  ", "   ", []], ["t\u00e9", "te\u0301", []], ["NaN", "none", []], ["t", "tt", ["ttt"]]]
+# family labels of a hand-built table that is joined onto a genotype matrix (there the column is only grouped on)
+GRP_STR = {0: "F1", 1: "F1 ", 2: " F1", 3: "f1", 5: "F10"}
+
+
+def _names_selftest():
+    for tc, gc, dec in COLUMN_SETS:                 # no drawn table can hold two columns of one name
+        for tr in TRAIT_CLUSTERS + [TRAIT_POOL]:
+            allc = [tc, gc] + list(dec) + ["env"] + list(tr)
+            assert len(set(allc)) == len(allc), allc
+    for tr in TRAIT_CLUSTERS:
+        assert not set(tr) & {"taxa", "taxa_grp", "env", "rep"} and len(set(tr)) == 3
+    for c in LABEL_CLUSTERS.values():
+        assert len(set((type(x), x) for x in c)) == len(c) and not any(isinstance(x, str) and "\x00" in x for x in c)
+
+
+_names_selftest()
+
+
+def sort_key(x):
+    """numbers before strings (the order pandas sorts mixed labels in); used only to classify cases"""
+    return (isinstance(x, str), x)
+
+
+def pylab(x):
+    """a label read back from pandas / numpy as the plain Python object (str stays str, integers become int); no normalisation"""
+    if isinstance(x, str):
+        return str(x)
+    if isinstance(x, (bool, numpy.bool_)):
+        return x
+    if isinstance(x, (int, numpy.integer)):
+        return int(x)
+    return x
+
+
+def same_labels(a, b):
+    """equal as multisets of Python objects"""
+    return Counter(pylab(x) for x in a) == Counter(pylab(x) for x in b)
+
+
+def confusable(labels):
+    """{normalisation: True} for every normalisation under which two of the (distinct) labels would collide, plus content classes"""
+    strs = [x for x in labels if isinstance(x, str)]
+    out = {}
+
+    def collide(name, fn, pool):
+        vals = []
+        for x in pool:
+            try:
+                vals.append(fn(x))
+            except (ValueError, OverflowError):
+                pass
+        out[name] = len(set(vals)) < len(vals)
+
+    out["edge_white_space"] = any(x != x.strip() for x in strs)
+    collide("collide_after_strip", lambda x: x.strip(), strs)
+    collide("collide_after_removing_white_space", lambda x: "".join(x.split()), strs)
+    collide("collide_after_casefold", lambda x: x.casefold(), strs)
+    collide("collide_after_unicode_normalisation", lambda x: unicodedata.normalize("NFKC", x), strs)
+    collide("collide_as_numbers", lambda x: float(x), labels)
+    collide("collide_after_str", lambda x: str(x), labels)
+    collide("collide_in_first_3_characters", lambda x: x[:3], [x for x in strs if len(x) >= 3])
+    out["collide_in_first_255_characters"] = len(set(x[:255] for x in strs if len(x) > 255)) < len([x for x in strs if len(x) > 255])
+    out["one_is_prefix_of_another"] = any(a != b and b.startswith(a) and a != "" for a in strs for b in strs)
+    out["empty_or_blank"] = any(x.strip() == "" for x in strs)
+    out["missing_value_word"] = any(x.strip().lower() in ("nan", "none", "na", "<na>", "null", "n/a", "nat", "#n/a") for x in strs)
+    out["numeric_looking_string"] = any(x.strip().lstrip("+-").replace(".", "", 1).isdigit() for x in strs)
+    out["non_ascii"] = any(not x.isascii() for x in strs)
+    out["integers"] = any(not isinstance(x, str) for x in labels)
+    out["integers_mixed_with_strings"] = bool(strs) and len(strs) < len(labels)
+    out["long"] = any(len(x) > 255 for x in strs)
+    return out
+
+
+@st.composite
+def label_set(draw, n, plain_weight=3):
+    """n labels, unique as Python objects, in drawn order.  {"style":..., "labels":[...]}"""
+    style = draw(st.sampled_from(["plain"] * plain_weight + ["cluster", "cluster", "cluster", "two_clusters", "any", "text"]))
+    plain = list(draw(st.permutations(NAME_POOL)))
+    cand = []
+    if style == "cluster":
+        cand = list(draw(st.permutations(LABEL_CLUSTERS[draw(st.sampled_from(CLUSTER_NAMES))])))
+        cand = cand[: draw(st.integers(2, 9))]
+    elif style == "two_clusters":
+        for _ in range(2):
+            c = list(draw(st.permutations(LABEL_CLUSTERS[draw(st.sampled_from(CLUSTER_NAMES))])))
+            cand += c[: draw(st.integers(2, 5))]
+    elif style == "any":
+        cand = list(draw(st.permutations([x for c in CLUSTER_NAMES for x in LABEL_CLUSTERS[c]])))[:n]
+    elif style == "text":
+        # drawn text, and variants of it that differ by padding / case / unicode normal form only
+        base = draw(st.lists(st.text(TEXT_ALPHABET, max_size=6), min_size=1, max_size=4, unique=True))
+        for _ in range(n):
+            b = draw(st.sampled_from(base))
+            op = draw(st.sampled_from(["asis", "asis", "pad", "pad", "pad", "upper", "lower", "swapcase", "NFD", "NFC", "twice", "cut"]))
+            if op == "pad":
+                b = draw(st.sampled_from(PADS)) + b + draw(st.sampled_from(PADS))
+            elif op in ("upper", "lower", "swapcase"):
+                b = getattr(b, op)()
+            elif op in ("NFD", "NFC"):
+                b = unicodedata.normalize(op, b)
+            elif op == "twice":
+                b = b + b
+            elif op == "cut":
+                b = b[:-1]
+            cand.append(b)
+    labels = []
+    for x in cand + plain:                      # unique by Python equality (1 != "1", "A" != "A "), filled up with plain names
+        if not any(type(x) is type(y) and x == y for y in labels) and len(labels) < n:
+            labels.append(x)
+    order = draw(st.permutations(list(range(n))))
+    return {"style": style, "labels": [labels[i] for i in order]}
+
+
+@st.composite
+def trait_names(draw, t):
+    if draw(st.integers(0, 2)) > 0:
+        return TRAIT_POOL[:t]
+    return list(draw(st.permutations(draw(st.sampled_from(TRAIT_CLUSTERS)))))[:t]
+
+
+def label_classes(ctx, labels, prefix):
+    for k, v in confusable(labels).items():
+        ctx.label(prefix + k, v)
+
+
 UVALS = [0.0, 0.5, -1.25, 2.0, 0.1, -0.3, 0.001, 3.7, -2.0, 1.0]
 VARVALS = [0.0, 0.0, 0.25, 1.0, 4.0]
 
@@ -76,7 +242,8 @@ def population(draw, nmin=1, nmax=8, names_required=False):
     p = draw(st.integers(1, 6))
     t = draw(st.integers(1, 3))
     geno = [[[draw(st.integers(0, 1)) for _ in range(p)] for _ in range(n)] for _ in range(2)]
-    names = list(draw(st.permutations(NAME_POOL)))[:n]
+    ls = draw(label_set(n))
+    names, style = ls["labels"], ls["style"]
     if not names_required and draw(st.integers(0, 7)) == 0:
         names = None
     grp = [draw(st.integers(0, 3)) for _ in range(n)] if draw(st.booleans()) else None
@@ -84,8 +251,9 @@ def population(draw, nmin=1, nmax=8, names_required=False):
     beta = [draw(st.integers(-80, 80)) / 4.0 for _ in range(t)]
     u_a = [[draw(st.sampled_from(UVALS)) for _ in range(t)] for _ in range(p)]
     u_d = [[draw(st.sampled_from(UVALS)) for _ in range(t)] for _ in range(p)] if kind == "AD" else None
-    trait = TRAIT_POOL[:t] if draw(st.booleans()) else None
-    return {"geno": geno, "names": names, "grp": grp, "kind": kind, "beta": beta, "u_a": u_a, "u_d": u_d, "trait": trait}
+    trait = draw(trait_names(t)) if draw(st.booleans()) else None
+    return {"geno": geno, "names": names, "label_style": style, "grp": grp, "kind": kind, "beta": beta, "u_a": u_a, "u_d": u_d,
+            "trait": trait}
 
 
 def build_population(pop):
@@ -223,28 +391,29 @@ def build_var_args(case, t):
     return out
 
 
-def relabel(df, taxa_dtype, grp_dtype, taxa_universe, grp_universe):
+def relabel(df, taxa_dtype, grp_dtype, taxa_universe, grp_universe, tcol="taxa", gcol="taxa_grp"):
     """The same table (same labels, same values, same row order) with its label columns stored differently."""
+    if taxa_dtype == "string" and not all(isinstance(x, str) for x in taxa_universe):
+        taxa_dtype = "object"                   # a "string" column cannot hold integer labels as they are
     if taxa_dtype == "default" and grp_dtype == "default":
         return df
     out = df.copy()
     if taxa_dtype == "object":
-        out["taxa"] = out["taxa"].astype(object)
+        out[tcol] = out[tcol].astype(object)
     elif taxa_dtype == "string":
-        out["taxa"] = out["taxa"].astype("string")
+        out[tcol] = out[tcol].astype("string")
     elif taxa_dtype == "category":
-        out["taxa"] = out["taxa"].astype("category")
+        out[tcol] = out[tcol].astype("category")
     elif taxa_dtype in ("category_universe", "category_ordered"):   # categories in universe order, unused ones included
-        out["taxa"] = pandas.Categorical([str(x) for x in df["taxa"].tolist()], categories=list(taxa_universe),
-                                         ordered=(taxa_dtype == "category_ordered"))
-    if "taxa_grp" in out.columns and grp_dtype != "default":
+        out[tcol] = pandas.Categorical(df[tcol].tolist(), categories=list(taxa_universe), ordered=(taxa_dtype == "category_ordered"))
+    if gcol in out.columns and grp_dtype != "default":
         if grp_dtype == "category":
-            out["taxa_grp"] = out["taxa_grp"].astype("category")
+            out[gcol] = out[gcol].astype("category")
         elif grp_universe is not None:
             if grp_dtype == "category_universe":
-                out["taxa_grp"] = pandas.Categorical([int(x) for x in df["taxa_grp"].tolist()], categories=list(grp_universe))
-            else:
-                out["taxa_grp"] = out["taxa_grp"].astype(grp_dtype)
+                out[gcol] = pandas.Categorical(df[gcol].tolist(), categories=list(grp_universe))
+            elif grp_dtype != "strlabel":
+                out[gcol] = out[gcol].astype(grp_dtype)
     return out
 
 
@@ -297,7 +466,7 @@ def row_labels(spec, n, taxa):
     if kind == "multi_dup":
         return pandas.MultiIndex.from_arrays([[x % 2 for x in cyc], small])
     if kind == "taxa":
-        return pandas.Index([str(x) for x in taxa], dtype=object)
+        return pandas.Index(list(taxa), dtype=object)
     if kind == "float_nan":
         return pandas.Index([float("nan") if x == 0 else 0.5 * x for x in small], dtype=float)
     if kind == "dates_dup":
@@ -307,9 +476,9 @@ def row_labels(spec, n, taxa):
     raise AssertionError(kind)
 
 
-def with_row_labels(df, spec):
+def with_row_labels(df, spec, tcol="taxa"):
     """The same records in the same order, the rows labelled as the case says."""
-    idx = row_labels(spec, len(df), df["taxa"].tolist())
+    idx = row_labels(spec, len(df), df[tcol].tolist())
     if idx is None:
         return df
     out = df.copy()
@@ -499,8 +668,13 @@ def check_trial(case, ctx):
     recs, tcols = frame_records(ctx, df, pop, "frame.")
     if recs is None:
         return
-    nonlex = names is not None and names != sorted(names)
+    nonlex = names is not None and names != sorted(names, key=sort_key)
     ctx.label("taxa_unlabelled", names is None)
+    if names is not None:
+        ctx.label("taxa_labels_" + pop.get("label_style", "plain"))
+        label_classes(ctx, names, "taxa_labels_")
+    if pop["trait"] is not None:
+        ctx.label("trait_names_confusable", pop["trait"] != TRAIT_POOL[:t])
     ctx.label("taxa_non_lexicographic", nonlex)
     ctx.label("grouped", grp is not None)
     ctx.label("nrep_array", isinstance(case["nrep"], list))
@@ -534,11 +708,11 @@ def check_trial(case, ctx):
     resid = {}      # (env, rep) -> list over taxa index of residual vectors (value - oracle g)
     for key in sorted(blocks):
         rows = blocks[key]
-        labs = [str(x[0]) for x in rows]
+        labs = [pylab(x[0]) for x in rows]
         if names is not None:
-            ctx.check(sorted(labs) == sorted(names), "record.each_taxon_once_per_block",
-                      lambda: "block %s holds taxa %s, population %s" % (key, labs, names))
-            if sorted(labs) != sorted(names):
+            ctx.check(same_labels(labs, names), "record.each_taxon_once_per_block",
+                      lambda: "block %s holds taxa %r, population %r" % (key, labs, names))
+            if not same_labels(labs, names):
                 return
             order = [index[lb] for lb in labs]
         else:
@@ -638,7 +812,7 @@ def check_trial(case, ctx):
         ctx.label("breeding_values_for_sub_list_of_taxa", len(set(perm)) < n)
         # the records of every taxon, read off the table by position (python lists), keyed by taxon label
         byname = {}
-        tlabs = [str(x) for x in dfl["taxa"].tolist()]
+        tlabs = [pylab(x) for x in dfl["taxa"].tolist()]
         tvals = [[float(x) for x in dfl[c].tolist()] for c in tcols]
         for r, lb in enumerate(tlabs):
             byname.setdefault(lb, []).append([tv[r] for tv in tvals])
@@ -646,7 +820,7 @@ def check_trial(case, ctx):
         u = est.unscale()
         ctx.check(type(est) is DenseEstimatedBreedingValueMatrix, "meanbv.type", str(type(est)))
         ctx.check(list(est.taxa) == [names[i] for i in perm], "meanbv.taxa_order",
-                  lambda: "taxa %s, genotype matrix %s" % (list(est.taxa), [names[i] for i in perm]))
+                  lambda: "taxa %r, genotype matrix %r" % (list(est.taxa), [names[i] for i in perm]))
         ctx.check(list(est.trait) == tcols, "meanbv.trait_names", lambda: "%s vs %s" % (list(est.trait), tcols))
         if grp is not None:
             ctx.check(est.taxa_grp is not None and [int(x) for x in est.taxa_grp] == [grp[i] for i in perm], "meanbv.taxa_grp")
@@ -682,9 +856,9 @@ def check_trial(case, ctx):
     ctx.check(len(tdf) == n and "taxa" in cols and all(c in cols for c in tcols), "truepheno.one_record_per_taxon",
               lambda: "%d records, columns %s" % (len(tdf), cols))
     if len(tdf) == n and "taxa" in cols and all(c in cols for c in tcols):
-        labs = [str(x) for x in tdf["taxa"].tolist()]
+        labs = [pylab(x) for x in tdf["taxa"].tolist()]
         if names is not None:
-            ctx.check(sorted(labs) == sorted(names), "truepheno.labels", lambda: "%s vs %s" % (labs, names))
+            ctx.check(same_labels(labs, names), "truepheno.labels", lambda: "%r vs %r" % (labs, names))
             order = [names.index(lb) if lb in names else 0 for lb in labs]
         else:
             order = list(range(n))
@@ -700,7 +874,7 @@ def check_trial(case, ctx):
     ctx.check(ub.shape == (n, t), "truebv.shape", str(ub.shape))
     if ub.shape == (n, t):
         if names is not None:
-            ctx.check(list(tb.taxa) == names, "truebv.taxa_order", lambda: "%s vs %s" % (list(tb.taxa), names))
+            ctx.check(list(tb.taxa) == names, "truebv.taxa_order", lambda: "%r vs %r" % (list(tb.taxa), names))
         if grp is not None:
             ctx.check(tb.taxa_grp is not None and [int(x) for x in tb.taxa_grp] == grp, "truebv.taxa_grp")
         if pop["trait"] is not None:
@@ -717,11 +891,14 @@ def check_trial(case, ctx):
 @st.composite
 def meanbv_case(draw):
     nuni = draw(st.one_of(st.integers(1, 9), st.integers(4, 9)))
-    names = list(draw(st.permutations(NAME_POOL)))[:nuni]
+    ls = draw(label_set(nuni, plain_weight=2))
+    names = ls["labels"]
     grp = [draw(st.integers(0, 3)) for _ in range(nuni)]
     use_grp = draw(st.booleans())
     t = draw(st.integers(1, 3))
-    tcols = TRAIT_POOL[:t]
+    tcols = draw(trait_names(t))
+    colset = draw(st.sampled_from(COLUMN_SETS))
+    grp_labels = draw(st.sampled_from(["int", "int", "str"]))      # "str": family labels of the table are strings (joined tables only)
     # records per universe taxon (0 = unphenotyped)
     counts = [draw(st.sampled_from([0, 1, 2, 2, 3, 5])) for _ in range(nuni)]
     if sum(counts) == 0:
@@ -743,7 +920,8 @@ def meanbv_case(draw):
     grp_cats = list(draw(st.permutations([0, 1, 2, 3, 5])))
     # row labels of the two tables (same records): the labels are attached to the row *positions* after the rows were permuted
     row_index, row_index2 = draw(index_spec()), draw(index_spec())
-    return {"row_index": row_index, "row_index2": row_index2, "names": names, "grp": grp, "use_grp": use_grp, "tcols": tcols, "rows": rows, "rowperm": rowperm,
+    return {"label_style": ls["style"], "columns": colset, "grp_labels": grp_labels,
+            "row_index": row_index, "row_index2": row_index2, "names": names, "grp": grp, "use_grp": use_grp, "tcols": tcols, "rows": rows, "rowperm": rowperm,
             "rowperm2": rowperm2, "gt": gt, "mode": mode, "gtkind": gtkind, "taxa_dtype": taxa_dtype, "grp_dtype": grp_dtype,
             "grp_cats": grp_cats}
 
@@ -753,16 +931,33 @@ def check_meanbv(case, ctx):
     t = len(tcols)
     use_grp = case["use_grp"]
     tdt, gdt = case.get("taxa_dtype", "default"), case.get("grp_dtype", "default")
+    tcol, gcol, decoys = case.get("columns") or ["taxa", "taxa_grp", []]
+    # family labels of the table: the integers of the genotype matrix, or (a table that is only joined onto a genotype matrix,
+    # where the family column is only grouped on) strings standing for them
+    strgrp = use_grp and case.get("grp_labels") == "str" and case["mode"] == "gt"
+    gmap = GRP_STR if strgrp else {g: g for g in (0, 1, 2, 3, 5)}
+    if strgrp and not gdt.startswith("category"):
+        gdt = "default"
+    nuni = len(names)
 
     def frame(order, rix):
-        data = {"taxa": [names[rows[r][0]] for r in order]}
+        data = {tcol: [names[rows[r][0]] for r in order]}
         if use_grp:
-            data["taxa_grp"] = [grp[rows[r][0]] for r in order]
+            data[gcol] = [gmap[grp[rows[r][0]]] for r in order]
         data["env"] = [1 + (r % 3) for r in order]
         for k, c in enumerate(tcols):
             data[c] = [rows[r][1 + k] for r in order]
+        # decoy columns named almost like the label columns, holding the labels of *other* taxa / families
+        for j, d in enumerate(decoys):
+            if "grp" in d.lower():
+                data[d] = [(grp[rows[r][0]] + 1 + j) % 4 for r in order]
+            else:
+                data[d] = [names[(rows[r][0] + 1 + j) % nuni] for r in order]
         # universe order of the taxa = `names` (includes taxa without any record: unused categories)
-        return with_row_labels(relabel(pandas.DataFrame(data), tdt, gdt, names, case.get("grp_cats", [0, 1, 2, 3, 5])), rix)
+        df = pandas.DataFrame(data)
+        assert list(df.columns) == list(data)
+        return with_row_labels(relabel(df, tdt, gdt, names, [gmap[g] for g in case.get("grp_cats", [0, 1, 2, 3, 5])], tcol, gcol),
+                               rix, tcol)
 
     def gtobj():
         sel = case["gt"]
@@ -780,7 +975,7 @@ def check_meanbv(case, ctx):
     maxrec = max(len(v) for v in recs.values())
     tol = 16.0 * (maxrec + 8) * EPS * 2.0 * amax + 1e-300
 
-    bvp = MeanPhenotypicBreedingValue("taxa", "taxa_grp" if use_grp else None, tcols if t > 1 else tcols[0])
+    bvp = MeanPhenotypicBreedingValue(tcol, gcol if use_grp else None, tcols if t > 1 else tcols[0])
     df1, df2 = frame(case["rowperm"], case.get("row_index")), frame(case["rowperm2"], case.get("row_index2"))
     snap = df1.copy(deep=True)
     sel = case["gt"]
@@ -790,7 +985,16 @@ def check_meanbv(case, ctx):
     ctx.label("mode_" + case["mode"])
     ctx.label("unphenotyped_taxon_in_genotypes", bool(missing) and case["mode"] == "gt")
     ctx.label("table_has_taxa_not_in_genotypes", bool(extra) and case["mode"] == "gt")
-    ctx.label("genotype_order_non_lexicographic", gtnames != sorted(gtnames))
+    ctx.label("genotype_order_non_lexicographic", gtnames != sorted(gtnames, key=sort_key))
+    ctx.label("taxa_labels_" + case.get("label_style", "plain"))
+    label_classes(ctx, names, "taxa_labels_")
+    in_both = [names[i] for i in sel if i in recs]
+    ctx.label("phenotyped_genotyped_taxon_with_edge_white_space",
+              case["mode"] == "gt" and any(isinstance(x, str) and x != x.strip() for x in in_both))
+    ctx.label("trait_names_confusable", tcols != TRAIT_POOL[:t])
+    ctx.label("label_columns_renamed", [tcol, gcol] != ["taxa", "taxa_grp"])
+    ctx.label("decoy_label_columns", bool(decoys))
+    ctx.label("family_labels_strings", strgrp)
     ctx.label("grouped", use_grp)
     ctx.label("all_unphenotyped", case["mode"] == "gt" and len(missing) == len(sel))
     nfam = len(set(grp[i] for i in recs))
@@ -809,7 +1013,7 @@ def check_meanbv(case, ctx):
     ctx.label("repeated_row_labels_no_genotype_matrix", rep1 and case["mode"] == "none")
     ctx.label("two_tables_differ_in_row_index_kind", rk != (case.get("row_index2") or {}).get("kind", "range"))
     ctx.label("row_labels_repeated_in_one_table_unique_in_the_other", rep1 != rep2)
-    ctx.nontrivial(len(sel) >= 3 and gtnames != sorted(gtnames) and maxrec >= 2 and bool(missing) and case["mode"] == "gt")
+    ctx.nontrivial(len(sel) >= 3 and gtnames != sorted(gtnames, key=sort_key) and maxrec >= 2 and bool(missing) and case["mode"] == "gt")
 
     if case["mode"] == "gt":
         gt = gtobj()
@@ -819,7 +1023,7 @@ def check_meanbv(case, ctx):
         ctx.check(type(e1) is DenseEstimatedBreedingValueMatrix, "type", str(type(e1)))
         u1, u2 = e1.unscale(), e2.unscale()
         ctx.check(u1.shape == (len(sel), t), "shape", str(u1.shape))
-        ctx.check(list(e1.taxa) == gtnames, "aligned.taxa_order", lambda: "taxa %s; genotype matrix %s" % (list(e1.taxa), gtnames))
+        ctx.check(list(e1.taxa) == gtnames, "aligned.taxa_order", lambda: "taxa %r; genotype matrix %r" % (list(e1.taxa), gtnames))
         ctx.check(list(e1.trait) == tcols, "trait_names", lambda: str(list(e1.trait)))
         if use_grp:
             ctx.check(e1.taxa_grp is not None and [int(x) for x in e1.taxa_grp] == [grp[i] for i in sel], "aligned.taxa_grp")
@@ -844,12 +1048,13 @@ def check_meanbv(case, ctx):
         e2 = bvp.estimate(df2)
         ctx.check(type(e1) is DenseEstimatedBreedingValueMatrix, "type", str(type(e1)))
         u1, u2 = e1.unscale(), e2.unscale()
-        labs = [str(x) for x in e1.taxa]
-        ctx.check(sorted(labs) == sorted(names[i] for i in recs) and u1.shape == (len(recs), t), "nogt.taxa_set",
-                  lambda: "taxa %s; taxa in the table %s" % (labs, sorted(names[i] for i in recs)))
+        labs = [pylab(x) for x in e1.taxa]
+        intable = [names[i] for i in recs]
+        ctx.check(same_labels(labs, intable) and u1.shape == (len(recs), t), "nogt.taxa_set",
+                  lambda: "taxa %r; taxa in the table %r" % (labs, intable))
         ctx.check(list(e1.trait) == tcols, "trait_names", lambda: str(list(e1.trait)))
-        ctx.check([str(x) for x in e2.taxa] == labs, "nogt.row_order_changes_taxa_order")
-        if sorted(labs) == sorted(names[i] for i in recs) and u1.shape == (len(recs), t):
+        ctx.check([pylab(x) for x in e2.taxa] == labs, "nogt.row_order_changes_taxa_order")
+        if same_labels(labs, intable) and u1.shape == (len(recs), t):
             for row, lb in enumerate(labs):
                 i = names.index(lb)
                 if use_grp:
@@ -1010,9 +1215,16 @@ def check_stats(case, ctx):
                       "requested var_env %r" % (k, z, lo, hi, nenv, v_env[k]))
 
 
+LABEL_CONTENT_LABELS = tuple("taxa_labels_" + k for k in (
+    "edge_white_space", "collide_after_strip", "collide_after_removing_white_space", "collide_after_casefold",
+    "collide_after_unicode_normalisation", "collide_as_numbers", "collide_after_str", "collide_in_first_255_characters",
+    "one_is_prefix_of_another", "empty_or_blank", "missing_value_word", "numeric_looking_string", "non_ascii", "integers",
+    "integers_mixed_with_strings", "long", "text", "cluster", "two_clusters", "any", "plain")) + ("trait_names_confusable",)
+
 SUBCHECKS = [
     SubCheck("trial", check_trial, trial_case(), quick=800, thorough=3000, shards_quick=4,
-             rule="generated population (1-8 taxa with permuted non-sorted labels or none, optional groups, 1-6 markers, additive or "
+             rule="generated population (1-8 taxa with permuted non-sorted labels of drawn contents -- plain names, clusters of "
+                  "confusable labels, drawn text with padded / case / normal-form variants, integers, integers mixed with strings -- or none, optional groups, 1-6 markers, additive or "
                   "additive+dominance model, 1-3 traits) x trial (nenv 1-6, nrep scalar/array 1-4, variances None/scalar/array "
                   "from {0,.25,1,4}, optional set_h2/set_H2, Generator or RandomState); the table handed to MeanPhenotypicBreedingValue optionally has a second trial "
                   "of a sub-list of the taxa stacked underneath, drawn row labels, and the genotype matrix lists a sub-list; non-trivial = >= 3 taxa in "
@@ -1023,9 +1235,10 @@ SUBCHECKS = [
                               "variance_arrays_readonly", "variance_arrays_strided", "variances_via_setters",
                               "trial_run_before_heritability_set", "trial_table_categorical_labels_multi_family",
                               "two_trials_stacked_keeping_row_numbers", "breeding_values_for_sub_list_of_taxa",
-                              "trial_table_repeated_row_labels_and_taxa_not_in_genotypes")),
+                              "trial_table_repeated_row_labels_and_taxa_not_in_genotypes") + LABEL_CONTENT_LABELS),
     SubCheck("meanbv", check_meanbv, meanbv_case(), quick=700, thorough=3000, shards_quick=4,
-             rule="hand-built phenotype tables (1-9 taxa, 0-5 records each, rows permuted twice, optional groups, 1-3 traits, "
+             rule="hand-built phenotype tables (1-9 taxa with labels of drawn contents, 0-5 records each, rows permuted twice, optional groups, "
+                  "1-3 traits with plain or confusable names, label columns under drawn names with decoy columns, "
                   "label-column dtypes, row index of 13 kinds incl. repeated labels) "
                   "and a genotype matrix listing any non-empty sub-list of the taxa in arbitrary order (or no matrix); "
                   "non-trivial = >= 3 genotyped taxa in non-lexicographic order, some taxon with >= 2 records, >= 1 "
@@ -1035,7 +1248,9 @@ SUBCHECKS = [
                               "categorical_with_unused_categories", "taxa_column_string", "taxa_column_object",
                               "family_column_Int64", "repeated_row_labels_and_table_has_taxa_not_in_genotypes",
                               "repeated_row_labels_no_genotype_matrix", "row_labels_repeated_in_one_table_unique_in_the_other")
-                             + tuple("row_index_" + k for k in sorted(set(INDEX_KINDS)))),
+                             + tuple("row_index_" + k for k in sorted(set(INDEX_KINDS))) + LABEL_CONTENT_LABELS
+                             + ("phenotyped_genotyped_taxon_with_edge_white_space", "label_columns_renamed", "decoy_label_columns",
+                                "family_labels_strings")),
     SubCheck("stats", check_stats, stats_case(), quick=24, thorough=60, shards_quick=4,
              rule="large trials (4000-6000 env x 2 taxa, 800-1600 env x 2-4 taxa, or 20-50 env x 60-110 taxa; nrep patterns incl. unequal); every case "
                   "is non-trivial; chi-square tests at two-sided level %g each" % ALPHA_TEST),
